@@ -59,6 +59,7 @@ instance : NumOps Float where
   digit x := (truncF x).abs.toUInt8.toNat
   roundAbs x := x.round.abs.toUInt8.toNat
   log10ceil x := x.log10.ceil.toUInt64.toNat
+  geHalf x := x.abs >= 0.5
   addOne x := x + 1.0
   showWhole := showWholeFloat
 
